@@ -233,6 +233,13 @@ class Gen:
             self.feat("lambda")
             a, at = self.expr(ctx, depth + 1)
             return f"(lambda _z: _z + 1)({a})", f"(lambda _z: _z + 1)({at})"
+        if r < 0.915 and self.ok("mlstring"):
+            # a multi-line string literal: its continuation lines are part of the value, whatever
+            # the indentation of the function that contains it
+            self.feat("mlstring")
+            pad = rnd.choice(["", "    ", "        ", "\t"])
+            txt = f'len("""s{self.nsite()}\n{pad}x\n{pad}  y""")'
+            return txt, txt
         if r < 0.95 and ctx.get("globals_ok", True):
             self.feat("global_read")
             return "G1", "G1"
